@@ -410,6 +410,24 @@ func (sc *c14Scenario) Run(s *simrt.Sim) {
 			sc.extra = append(sc.extra, Violation{Clause: "api-smoke", Fingerprint: "Cor.New-exchange", Detail: fmt.Sprintf("Cor.New(): YieldRef got %v (want x1), YieldFrom got %v (want y1)", gotX, gotY)})
 		}
 	}
+	// StartWithVal hands its value to the first YieldRef - also when that value is nil (interface- and pointer-typed
+	// coroutines): the first YieldRef returns nil at once, the caller's request goes to the second one
+	{
+		var tg, cl *fpgo.CorDef[interface{}]
+		var first, second, gotY interface{} = "unset", "unset", "unset"
+		tg = fpgo.Cor.New(func() {
+			first = tg.YieldRef("y0")
+			second = tg.YieldRef("y1")
+		})
+		cl = fpgo.Cor.New(func() { gotY = cl.YieldFrom(tg, "x1") })
+		tg.StartWithVal(nil)
+		s.Go("nilval-caller", func() { cl.Start() })
+		if !s.WaitUntilTimeout(func() bool { return tg.IsDone() && cl.IsDone() }, 10*time.Minute) {
+			sc.extra = append(sc.extra, Violation{Clause: "start-with-val", Fingerprint: "nil-initial-value-hangs", Detail: fmt.Sprintf("StartWithVal(nil) then one YieldFrom: did not finish (first YieldRef got %v, second %v, caller got %v)", first, second, gotY)})
+		} else if first != nil || second != "x1" || gotY != "y1" {
+			sc.extra = append(sc.extra, Violation{Clause: "start-with-val", Fingerprint: "nil-initial-value", Detail: fmt.Sprintf("StartWithVal(nil) then one YieldFrom(x1): first YieldRef got %v (want nil), second %v (want x1), the caller got %v (want y1)", first, second, gotY)})
+		}
+	}
 }
 
 func (sc *c14Scenario) Check(res *simrt.Result) []Violation {
